@@ -50,61 +50,75 @@ C0 == [modules |-> <<>>, lockAfter |-> 2, lockWindow |-> 2, lockDuration |-> 2, 
 Seed2 == <<S0("u1", 1, TRUE), S0("u2", 2, TRUE)>>
 SeedUnconf == <<S0("u1", 1, TRUE), S0("u2", 2, FALSE)>>
 
+\* fault families (C18): the worlds and events of a base family, every request also with
+\* each of its backend calls failing, under both error handlers and both response modes
+FaultFamilies == {"f_login", "f_remember", "f_recover", "f_register", "f_twofa", "f_smsswitch", "f_tfasetup", "f_otp", "f_oauth", "f_expire"}
+Base == CASE Family = "f_login" -> "login" [] Family = "f_remember" -> "remember" [] Family = "f_recover" -> "recover"
+          [] Family = "f_register" -> "register" [] Family = "f_twofa" -> "twofa" [] Family = "f_smsswitch" -> "smsswitch"
+          [] Family = "f_tfasetup" -> "tfasetup" [] Family = "f_otp" -> "otp" [] Family = "f_oauth" -> "oauth"
+          [] Family = "f_expire" -> "expire" [] OTHER -> Family
+MaxFaultIdx == 9     \* no modelled request makes more backend calls than this (checked: CallsBound)
+
 \* [cfg, seed] pairs
-Worlds ==
-  CASE Family = "login" ->
+WorldsOf(Fam) ==
+  CASE Fam = "login" ->
          { [cfg |-> [C0 EXCEPT !.modules = m], seed |-> s] :
              m \in { <<"auth", "logout">>,
                      <<"auth", "lock", "confirm", "logout">>,
                      <<"confirm", "lock", "auth", "logout">> },
              s \in {Seed2, SeedUnconf} }
-    [] Family = "lock" ->
+    [] Fam = "lock" ->
          { [cfg |-> [C0 EXCEPT !.modules = <<"auth", "lock", "logout">>, !.lockAfter = la,
                                !.lockWindow = w, !.lockDuration = d], seed |-> Seed2] :
              la \in {1, 2}, w \in {1, 2}, d \in {1, 3} }
-    [] Family = "remember" ->
+    [] Fam = "remember" ->
          { [cfg |-> [C0 EXCEPT !.modules = m, !.recoverLogin = rl, !.mwReqs = 1], seed |-> Seed2] :
              m \in { <<"auth", "remember", "logout">>, <<"auth", "remember", "recover", "logout">> },
              rl \in BOOLEAN }
-    [] Family = "expire" ->
+    [] Fam = "expire" ->
          { [cfg |-> [C0 EXCEPT !.modules = <<"auth", "expire", "logout">>, !.expireAfter = ea,
                                !.whitelist = wl], seed |-> Seed2] :
              ea \in {1, 2}, wl \in { <<>>, <<"app1">> } }
-    [] Family = "recover" ->
+    [] Fam = "recover" ->
          { [cfg |-> [C0 EXCEPT !.modules = m, !.recoverLogin = rl, !.recoverTTL = 1], seed |-> s] :
              m \in { <<"auth", "recover", "logout">>, <<"auth", "recover", "confirm", "lock", "logout">> },
              rl \in BOOLEAN, s \in {Seed2, SeedUnconf} }
-    [] Family = "register" ->
+    [] Fam = "register" ->
          { [cfg |-> [C0 EXCEPT !.modules = m], seed |-> <<S0("u1", 1, TRUE)>>] :
              m \in { <<"auth", "register", "logout">>, <<"auth", "register", "confirm", "logout">> } }
-    [] Family = "twofa" ->       \* second-step logins: victim u1 (TOTP), attacker-owned u2 (SMS on phone 1)
+    [] Fam = "twofa" ->       \* second-step logins: victim u1 (TOTP), attacker-owned u2 (SMS on phone 1)
          { [cfg |-> [C0 EXCEPT !.modules = m, !.totpOneTime = ot, !.recoverLogin = TRUE, !.lockAfter = 1],
             seed |-> << [S0("u1", 1, TRUE) EXCEPT !.totp = TRUE, !.rc = TRUE],
                         [S0("u2", 2, TRUE) EXCEPT !.sms = 1, !.rc = TRUE] >>] :
              m \in { <<"auth", "totp", "sms", "logout">>, <<"auth", "sms", "totp", "lock", "logout">>,
                      <<"auth", "otp", "recover", "totp", "sms", "logout">> },
              ot \in BOOLEAN }
-    [] Family = "smsswitch" ->   \* both accounts use SMS (different phones): pending-login switches
+    [] Fam = "smsswitch" ->   \* both accounts use SMS (different phones): pending-login switches
          { [cfg |-> [C0 EXCEPT !.modules = <<"auth", "sms", "logout">>],
             seed |-> << [S0("u1", 1, TRUE) EXCEPT !.sms = 1, !.rc = TRUE],
                         [S0("u2", 2, TRUE) EXCEPT !.sms = 2] >>] }
-    [] Family = "tfasetup" ->    \* enrolment / removal / regeneration, with and without e-mail authorisation
+    [] Fam = "tfasetup" ->    \* enrolment / removal / regeneration, with and without e-mail authorisation
          { [cfg |-> [C0 EXCEPT !.modules = m, !.emailAuth = ea, !.appHandles2FA = ea], seed |-> Seed2] :
              m \in { <<"auth", "totp", "sms", "recovery", "logout">>,
                      <<"auth", "remember", "totp", "sms", "recovery", "logout">> },
              ea \in BOOLEAN }
-    [] Family = "otp" ->
+    [] Fam = "otp" ->
          { [cfg |-> [C0 EXCEPT !.modules = m, !.lockAfter = 1],
             seed |-> << [S0("u1", 1, TRUE) EXCEPT !.otps = 2], [S0("u2", 2, TRUE) EXCEPT !.otps = 4] >>] :
              m \in { <<"auth", "otp", "logout">>, <<"auth", "otp", "lock", "logout">> } }
-    [] Family = "indep" ->       \* two clients on disjoint accounts / browsers (C20)
+    [] Fam = "indep" ->       \* two clients on disjoint accounts / browsers (C20)
          { [cfg |-> [C0 EXCEPT !.modules = m, !.recoverLogin = TRUE],
             seed |-> << [S0("u1", 1, TRUE) EXCEPT !.otps = 1], [S0("u2", 2, TRUE) EXCEPT !.otps = 1] >>] :
              m \in { <<"auth", "lock", "recover", "otp", "logout">>, <<"auth", "remember", "recover", "otp", "logout">> } }
-    [] Family = "oauth" ->
+    [] Fam = "oauth" ->
          { [cfg |-> [C0 EXCEPT !.modules = m, !.errWrites = ew], seed |-> <<S0("u1", 1, TRUE)>>] :
              m \in { <<"auth", "oauth2", "logout">>, <<"auth", "oauth2", "lock", "remember", "logout">> },
              ew \in BOOLEAN }
+
+Worlds ==
+  IF Family \in FaultFamilies
+  THEN { [w EXCEPT !.cfg.errWrites = ew, !.cfg.json = jm] : w \in WorldsOf(Base), ew \in BOOLEAN, jm \in BOOLEAN }
+  ELSE WorldsOf(Family)
 
 -----------------------------------------------------------------------------
 (* events *)
@@ -124,20 +138,20 @@ Ticks(ds) == { [Ev("Tick", NONE) EXCEPT !.d = d] : d \in ds }
 
 Admin(acts, ps) == { [Ev(a, NONE) EXCEPT !.pid = p] : a \in acts, p \in ps }
 
-Events(S, c) ==
-  CASE Family = "login" ->
+EventsOf(Fam, S, c) ==
+  CASE Fam = "login" ->
          LoginEvents \cup ProbeLogout(c) \cup Ticks({1, 3})
          \cup (IF Has(c, "lock") THEN Admin({"AdminLock", "AdminUnlock"}, {"u1"}) ELSE {})
          \cup (IF Has(c, "confirm") THEN Admin({"RestartConfirm"}, {"u1"}) ELSE {})
          \cup (IF Has(c, "confirm")
                THEN { [Ev("ConfirmGet", b) EXCEPT !.tok = t] : b \in {"b1"}, t \in {-1} \cup 1..S.iss["ct"] }
                ELSE {})
-    [] Family = "lock" ->
+    [] Fam = "lock" ->
          { [Ev("LoginPost", "b1") EXCEPT !.pid = p, !.pw = w] : p \in {"u1", "u2"}, w \in {1, 2, -1} }
          \cup Ticks({1, c.lockWindow + 1, c.lockDuration + 1})
          \cup Admin({"AdminLock", "AdminUnlock"}, {"u1"})
          \cup { Ev("Probe", "b1") }
-    [] Family = "remember" ->
+    [] Fam = "remember" ->
          { [Ev("LoginPost", b) EXCEPT !.pid = p, !.pw = w, !.rm = r] :
               b \in Browsers, p \in {"u1", "u2"}, w \in {1, -1}, r \in BOOLEAN }
          \cup ProbeLogout(c)
@@ -148,18 +162,18 @@ Events(S, c) ==
                THEN { [Ev("RecoverStart", "b1") EXCEPT !.pid = "u1"] }
                     \cup { [Ev("RecoverEnd", b) EXCEPT !.tok = t, !.pw = 3] : b \in Browsers, t \in 1..S.iss["rt"] }
                ELSE {})
-    [] Family = "expire" ->
+    [] Fam = "expire" ->
          { [Ev("LoginPost", b) EXCEPT !.pid = "u1", !.pw = 1] : b \in Browsers }
          \cup ProbeLogout(c) \cup Ticks({1, c.expireAfter, c.expireAfter + 1})
          \cup { [Ev("AppKey", "b1") EXCEPT !.k = k] : k \in {"app1", "app2"} }
-    [] Family = "recover" ->
+    [] Fam = "recover" ->
          { [Ev("LoginPost", "b1") EXCEPT !.pid = p, !.pw = w] : p \in {"u1", "u2"}, w \in {1, 2, 3} }
          \cup { [Ev("RecoverStart", "b1") EXCEPT !.pid = p] : p \in {"u1", "u2", "g1"} }
          \cup { [Ev("RecoverEnd", b) EXCEPT !.tok = t, !.pw = 3, !.valid = v] :
                   b \in Browsers, t \in {-1} \cup 1..S.iss["rt"], v \in BOOLEAN }
          \cup Ticks({1, 2}) \cup { Ev("Probe", "b1"), Ev("Probe", "b2") }
          \cup (IF Has(c, "lock") THEN Admin({"AdminLock"}, {"u1"}) ELSE {})
-    [] Family = "register" ->
+    [] Fam = "register" ->
          { [Ev("RegisterPost", b) EXCEPT !.pid = p, !.pw = w, !.valid = v] :
               b \in Browsers, p \in {"u1", "u2"}, w \in {1, 2}, v \in BOOLEAN }
          \cup LoginEvents \cup ProbeLogout(c)
@@ -167,7 +181,7 @@ Events(S, c) ==
                THEN { [Ev("ConfirmGet", b) EXCEPT !.tok = t] : b \in {"b1"}, t \in {-1} \cup 1..S.iss["ct"] }
                ELSE {})
 
-    [] Family = "twofa" ->
+    [] Fam = "twofa" ->
          { [Ev("LoginPost", b) EXCEPT !.pid = p, !.pw = w] : b \in Browsers, p \in {"u1", "u2"}, w \in {1, 2} }
          \cup { [Ev("TotpValidate", b) EXCEPT !.tok = 1, !.code = k] : b \in Browsers, k \in {1, 3, -1} }
          \cup { [Ev("TotpValidate", b) EXCEPT !.rc = i, !.g = g] : b \in Browsers, i \in {1}, g \in {1, 2} }
@@ -180,12 +194,12 @@ Events(S, c) ==
                THEN { [Ev("RecoverStart", "b1") EXCEPT !.pid = "u1"] }
                     \cup { [Ev("RecoverEnd", "b1") EXCEPT !.tok = t, !.pw = 3] : t \in 1..S.iss["rt"] }
                ELSE {})
-    [] Family = "smsswitch" ->
+    [] Fam = "smsswitch" ->
          { [Ev("LoginPost", "b1") EXCEPT !.pid = p, !.pw = w] : p \in {"u1", "u2"}, w \in {1, 2} }
          \cup { [Ev("SmsValidate", "b1") EXCEPT !.code = k] : k \in {0, -1} \cup 1..S.iss["sc"] }
          \cup { [Ev("SmsValidate", "b1") EXCEPT !.rc = 1, !.g = 1] }
          \cup Ticks({1}) \cup { Ev("Probe", "b1"), [Ev("Logout", "b1") EXCEPT !.method = c.logoutMethod] }
-    [] Family = "tfasetup" ->
+    [] Fam = "tfasetup" ->
          { [Ev("LoginPost", b) EXCEPT !.pid = p, !.pw = w, !.rm = Has(c, "remember")] :
               b \in {"b1"}, p \in {"u1", "u2"}, w \in {1, 2} }
          \cup { Ev(a, "b1") : a \in {"TotpSetup", "SmsSetupGet", "RecoveryRegen"} }
@@ -201,15 +215,15 @@ Events(S, c) ==
                ELSE {})
          \cup Ticks({1})
          \cup (IF Has(c, "remember") THEN { Ev("DropSession", "b1") } ELSE {})
-    [] Family = "otp" ->
+    [] Fam = "otp" ->
          { [Ev("OtpLoginPost", b) EXCEPT !.pid = p, !.tok = t] :
               b \in Browsers, p \in {"u1", "u2"}, t \in {-1} \cup 1..S.iss["otp"] }
          \cup { Ev(a, "b1") : a \in {"OtpAdd", "OtpClear", "Probe"} }
          \cup { [Ev("LoginPost", "b1") EXCEPT !.pid = "u2", !.pw = 2] }
          \cup Ticks({3})
-    [] Family = "indep" ->
+    [] Fam = "indep" ->
          ClientEvents(S, c, "b1", "u1") \cup ClientEvents(S, c, "b2", "u2") \cup Ticks({1})
-    [] Family = "oauth" ->
+    [] Fam = "oauth" ->
          { [Ev("OAuthStart", b) EXCEPT !.prov = p, !.rm = r] : b \in Browsers, p \in {"pa", "pb"}, r \in BOOLEAN }
          \cup { [Ev("OAuthCallback", b) EXCEPT !.prov = p, !.tok = t, !.outcome = o] :
                   b \in Browsers, p \in {"pa", "pb"}, t \in {-1} \cup 1..S.iss["os"],
@@ -217,6 +231,12 @@ Events(S, c) ==
          \cup ProbeLogout(c)
          \cup { [Ev("LoginPost", "b1") EXCEPT !.pid = p, !.pw = -1] : p \in {"o_pa_x", "u1"} }
          \cup (IF Has(c, "lock") THEN Admin({"AdminLock"}, {"o_pa_x"}) ELSE {})
+
+WithFaults(E) ==
+  E \cup { [e EXCEPT !.fault = n, !.faultE = k] :
+              e \in {x \in E : x.act \in RequestActs}, n \in 1..MaxFaultIdx, k \in {"io", "notfound"} }
+
+Events(S, c) == IF Family \in FaultFamilies THEN WithFaults(EventsOf(Base, S, c)) ELSE EventsOf(Family, S, c)
 
 -----------------------------------------------------------------------------
 
@@ -230,10 +250,13 @@ Init ==
 Next ==
   \E e \in Events(st, cfg) :
     LET r == Apply(st, cfg, e) IN
+      /\ e.fault = 0 \/ r.resp.faultHit          \* (a fault index beyond the calls the request makes is no fault)
       /\ st' = r.st
       /\ resp' = r.resp
       /\ step' = e
-      /\ viol' = PropViolations(st, r.st, cfg, e, r.resp)
+      /\ viol' = IF e.fault = 0 THEN PropViolations(st, r.st, cfg, e, r.resp)
+                 ELSE FaultViolations(st, r.st, cfg, e, r.resp, Apply(st, cfg, [e EXCEPT !.fault = 0]))
+                      \cup (PropViolations(st, r.st, cfg, e, r.resp) \cap FaultTolerantClauses)
       /\ js' = IF EmitJson THEN ToJson(e) ELSE ""
       /\ UNCHANGED <<cfg, seed>>
 
@@ -250,6 +273,9 @@ View == <<st, cfg>>
 \* is the set of clause names the last transition violated (not part of the
 \* VIEW, so it is evaluated on every generated transition, also into known states)
 NoViolation == viol = {}
+
+\* the fault enumeration is complete: no request makes more backend calls than the indices tried
+CallsBound == Len(resp.calls) <= MaxFaultIdx
 
 \* C16 at the design level: in every reachable state the paired requests are
 \* indistinguishable to the client
